@@ -170,3 +170,15 @@ Proof.
       + destruct Hx as [->|Hx]; [unfold tle; rewrite Ewm; reflexivity|apply Lm; exact Hx]. }
   rewrite R. reflexivity.
 Qed.
+
+(* ---- SimRunner.schedule_step: queueing a step ---- *)
+(* (checked against the source statement by statement: no duplicate entry, the heap gets the new time, the newer_step flag is
+   raised iff the new time is earlier than everything queued) *)
+Theorem tie_schedule_step s i t :
+  schedule s i t =
+  let x := s i in let r := schedule_step (nexts x) (newer x) t in
+  if memT t (nexts x) then s else upd s i (mkSim (pc x) (prog x) (fst r) (cur x) (last x) (snd r)).
+Proof.
+  unfold schedule, schedule_step, heap0. cbv zeta. destruct (memT t (nexts (s i))); [reflexivity|].
+  destruct (tmin (nexts (s i))) as [m|]; simpl; [destruct (tlt t m)|]; reflexivity.
+Qed.
